@@ -72,6 +72,16 @@ EXCLUDED[8] = (EXCLUDED[7] + ", no normalize() calls added inside other methods,
 IDEAS[9] = IDEAS[8]
 EXCLUDED[9] = (EXCLUDED[8] + ", no mutation of an operand / argument by a comparison or an operator, no optional-argument defaults (offset_id, vertices=), no "
                "ndarray-subclass type leaks, no finite-difference fallbacks replacing analytic Jacobians, no early exits when nothing is free")
+IDEAS[10] = ("TWO COOPERATING SITES: both A and B must this time consist of two (or more) edits in DIFFERENT functions / files that each look "
+             "harmless alone and keep the property when applied alone, but break it together (e.g. a helper whose contract is subtly widened "
+             "in one place and a caller that starts to rely on the old contract elsewhere; a convention changed consistently in all places "
+             "but one; a value normalised at creation in one class and assumed normalised in another; a default moved from the callee to "
+             "only some of its callers); AND the violation must need a MULTI-STEP HISTORY through the public API to manifest (e.g. "
+             "construct -> optimize -> edit a pose / flag / measurement -> query; export -> import -> optimize -> export again; the same "
+             "edge or vertex object serving two graphs one after the other; calling a query between two optimizer calls; a second call "
+             "with other keyword arguments) - a single call on a fresh object must still behave correctly. " + IDEAS[7])
+EXCLUDED[10] = (EXCLUDED[9] + ", no views returned by to_compact() / position, no IterationResult object reuse, no isdigit() id filters, no "
+                "tag-anywhere-in-line matching, no fast paths for identity rotations or zero residuals")
 os.makedirs(pdir, exist_ok=True)
 for p in props:
     pid = p['id']
